@@ -87,7 +87,8 @@ def histories(draw, kinds_weighted, max_ops=20, n_variants=(1, 3), gen_kw=None, 
     # name mode (parameter_mode=False: a result's file name is the config's name).  Its documented limits: no contexts,
     # unique config names, no config mounted twice - so such a history uses ONE configuration for all its chains.
     nm = False
-    if name_mode and draw(st.integers(0, 5)) == 0 and not base.get('context'):
+    # (name_mode: True = one history in six; an integer n = one in n)
+    if name_mode and draw(st.integers(0, (5 if name_mode is True else int(name_mode) - 1))) == 0 and not base.get('context'):
         try:
             insts = model.compose(base)
             nm = len({(i.fi, i.part) for i in insts}) == len(insts)
